@@ -29,7 +29,7 @@ struct Rec {
 const INITIALS: &[&str] = &["", "ㄅ", "ㄆ", "ㄇ", "ㄈ", "ㄉ", "ㄊ", "ㄋ", "ㄌ", "ㄍ", "ㄎ", "ㄏ", "ㄐ", "ㄑ", "ㄒ", "ㄓ", "ㄔ", "ㄕ", "ㄖ", "ㄗ", "ㄘ", "ㄙ"];
 const MEDIALS: &[&str] = &["", "ㄧ", "ㄨ", "ㄩ"];
 const RIMES: &[&str] = &["", "ㄚ", "ㄛ", "ㄜ", "ㄝ", "ㄞ", "ㄟ", "ㄠ", "ㄡ", "ㄢ", "ㄣ", "ㄤ", "ㄥ", "ㄦ"];
-const TONES: &[&str] = &["", "˙", "ˊ", "ˇ", "ˋ"];
+const TONES: &[&str] = &["", "˙", "ˊ", "ˇ", "ˋ", "ˉ"];
 
 fn gen_syl(rng: &mut Rng) -> String {
     loop {
